@@ -13,6 +13,7 @@ version compare-and-swap guarantees on a database that runs write transactions c
 -/
 import Pithos.Model.MetaFine
 import Pithos.Lemmas.MetaFine
+import Pithos.Gen.CondPaths
 
 namespace Pithos.C12Concurrent
 open Pithos.MetaFine
@@ -67,6 +68,54 @@ it extended at its commit was empty. -/
 theorem append_over_empty_replacement :
     let s := exec (fun _ => 1) (init (some ⟨0, 1, [1]⟩) 1 [.append 2 none, .put [] .none]) [0, 1, 1, 0, 0, 0]
     s.db.row = some ⟨0, 4, [1, 2]⟩ ∧ s.threads.map (·.loc) = [.done (.okAt 1), .done .ok] := by
+  decide
+
+/-- The append path WITHOUT the prefix check (what the metadata store would do if the comparison of
+the existing part rows with the supplied list were skipped or made to depend on a request option):
+read 3 records the part rows but accepts any list. -/
+def stepThreadNoPrefix (sz : PartId → Nat) (tid : Nat) (d : Db) (t : Thread) : Db × Loc × Option Commit :=
+  match t.prog, t.loc with
+  | .append _ _, .r2 c1 (some sc) =>
+    let p3 := match d.row with
+      | some r => if r.id == sc.id then r.parts else []
+      | none => []
+    (d, .r3 c1 sc p3, none)
+  | _, _ => stepThread sz tid d t
+
+def stepNoPrefix (sz : PartId → Nat) (s : State) (i : Nat) : State :=
+  match s.threads[i]? with
+  | none => s
+  | some t =>
+    let (d', l', c) := stepThreadNoPrefix sz i s.db t
+    { db := d', threads := setThread s.threads i l', log := s.log ++ c.toList }
+
+def execNoPrefix (sz : PartId → Nat) (s : State) (sched : List Nat) : State := sched.foldl (stepNoPrefix sz) s
+
+/-- Negation witness — why the prefix check must be UNCONDITIONAL (T1 obligation
+`Pithos.C07.extracted_append_path_locks_the_row_it_read`): appender 0 takes its storage-layer snapshot
+[1]; appender 1 appends 3 and commits; appender 0 re-reads the row (fresh version, so the
+compare-and-swap will pass), skips the prefix check and commits the list built from its stale
+snapshot: both appends are acknowledged at offset 1 and part 2 is nowhere. With the check (the model
+as it is) appender 0 is refused on the same schedule. -/
+theorem append_without_prefix_check_is_lost :
+    let progs : List Prog := [.append 2 none, .append 3 none]
+    let sched := [0, 1, 1, 1, 1, 0, 0, 0]
+    (execNoPrefix (fun _ => 1) (init (some ⟨0, 1, [1]⟩) 1 progs) sched).db.row = some ⟨0, 3, [1, 3]⟩ ∧
+    (execNoPrefix (fun _ => 1) (init (some ⟨0, 1, [1]⟩) 1 progs) sched).threads.map (·.loc)
+      = [.done (.okAt 1), .done (.okAt 1)] ∧
+    (exec (fun _ => 1) (init (some ⟨0, 1, [1]⟩) 1 progs) sched).db.row = some ⟨0, 2, [1, 3]⟩ ∧
+    (exec (fun _ => 1) (init (some ⟨0, 1, [1]⟩) 1 progs) sched).threads.map (·.loc)
+      = [.done .internal, .done (.okAt 1)] := by
+  decide
+
+/-- T1 (regenerated by the `condpaths` extractor): the metadata store's AppendObject takes its
+guarded update with the version of the very row whose part rows it read, compares those part rows
+with the supplied list as a prefix, and NOTHING else (no request option) decides whether that
+comparison applies. -/
+theorem append_path_prefix_check_is_unconditional :
+    ∃ p ∈ Gen.CondPaths.condPaths, p.fn = "AppendObject" ∧ p.kind = "append" ∧
+      p.lockVersionGen.isSome = true ∧ p.lockVersionGen = p.partsReadGen ∧ p.lockEntityGen = p.lockVersionGen ∧
+      p.prefixChecked = true ∧ p.prefixCheckUnconditional = true := by
   decide
 
 /-- Non-vacuity: two appenders that meet every hypothesis; one wins, the other loses the version
